@@ -301,6 +301,7 @@ class Env:
         self.group = group
         self.group_index = group_index
         self.group_size = len(group) if group else 1
+        self.arrays = {}
         self.sender = self.fields.get("Sender", b"\x01" * 32)
 
 
@@ -437,6 +438,32 @@ class Evaluator:
         if f == "GroupIndex":
             return self.env.group_index
         return self.env.fields[f]
+
+    def t_GtxnField(self, t, fr):
+        # ["GtxnField", index (int or term), field]: a field of another transaction of the group
+        i = t[1] if isinstance(t[1], int) else _u(self.ev(t[1], fr))
+        grp = self.env.group or [None]
+        if i >= len(grp):
+            raise EFail("group index")
+        if i == self.env.group_index:
+            return self.t_TxnField(["TxnField", t[2]], fr)
+        return grp[i][t[2]]
+
+    def t_TxnArr(self, t, fr):
+        # ["TxnArr", "Accounts"|"Assets"|"Applications"|"ApplicationArgs", index (int or term)]
+        i = t[2] if isinstance(t[2], int) else _u(self.ev(t[2], fr))
+        name = t[1]
+        if name == "ApplicationArgs":
+            arr = self.env.app_args
+        elif name == "Accounts":
+            arr = [self.env.sender] + list(self.env.arrays.get("Accounts", []))
+        elif name == "Applications":
+            arr = [self.env.fields.get("ApplicationID", 7)] + list(self.env.arrays.get("Applications", []))
+        else:
+            arr = list(self.env.arrays.get(name, []))
+        if i >= len(arr):
+            raise EFail("array index")
+        return arr[i]
 
     def t_GlobalField(self, t, fr):
         f = t[1]
